@@ -188,9 +188,15 @@ BY_LABEL = {k[0]: k for k in KINDS}
 
 # the operator subset for the complete depth-3 layer (thorough)
 OPERATOR_FAMILIES = ("BinOp", "UnaryOp", "BoolOp", "Compare", "IfExp", "Lambda", "Call", "Subscript")
+# same-precedence twins left out of the two outer layers of the depth-3 enumeration (the innermost layer is complete)
+D3_SKIP = {
+    "BinOp.Add", "BinOp.FloorDiv", "BinOp.Mod", "BinOp.RShift", "BinOp.BitXor",
+    "Compare.NotEq", "Compare.LtE", "Compare.Gt", "Compare.GtE", "Compare.Is", "Compare.NotIn", "Compare.chain3",
+    "UnaryOp.UAdd", "Call.pos2", "Call.kw2", "Lambda.pos-body",
+}
 # one slot of a few kinds for the depth 4-5 single-child spines: (label, slot index)
 SPINE = [
-    ("UnaryOp.USub", 0), ("UnaryOp.Not", 0), ("BinOp.Sub", 1), ("BinOp.Mult", 0), ("BinOp.Pow", 0), ("Compare.Lt", 0),
+    ("UnaryOp.USub", 0), ("UnaryOp.Not", 0), ("BinOp.Sub", 1), ("BinOp.Mult", 0), ("Compare.Lt", 0),
     ("BoolOp.Or", 1), ("IfExp", 0), ("IfExp", 1), ("Lambda.noargs", 0), ("Call.func", 0), ("Call.pos", 0),
     ("Subscript.value", 0), ("Attribute", 0),
 ]
@@ -229,8 +235,12 @@ def depth2():
                 yield (k1[0], i, k2[0]), build(k1[0], {i: build(k2[0])})
 
 
+def d3_ops():
+    return [k for k in KINDS if k[2] in OPERATOR_FAMILIES and k[3] and k[0] not in D3_SKIP]
+
+
 def depth3():
-    ops = [k for k in KINDS if k[2] in OPERATOR_FAMILIES and k[3]]
+    ops = d3_ops()
     for k1 in ops:
         for i in range(len(k1[3])):
             for k2 in ops:
